@@ -35,3 +35,129 @@ pub fn scenarios(tier: &str) -> Vec<Scenario> {
         traces: true,
     }]
 }
+
+// ---- replicas driven at different wall-clock seconds ----------------------------------------------
+// The twins of the history explorer are driven in lock step, usually within the same second. Here a
+// fixed set of histories whose code reads TIMESTAMP (the context probe of C19) — with the block
+// timestamps 0, 1 and the default — is executed on replica A, then, at least 1.1 s later and in another
+// wall-clock second, on replica B; every call outcome and the complete observation must agree.
+
+fn timeshift_histories() -> Vec<(String, Vec<Step>)> {
+    let ctx = Tgt::Created { pk: 1, nonce: 0 };
+    let mut base = start_with_s();
+    base.extend(block(vec![TxSpec::Deploy { pk: 1, code: crate::asm::ctx_initcode(), len: DEFAULT_LEN }]));
+    let mut v = Vec::new();
+    for (name, ts) in [("block timestamp 0", Some(0u64)), ("block timestamp 1", Some(1)), ("default block timestamp", None)] {
+        let mut steps = base.clone();
+        if let Some(ts) = ts {
+            steps.push(Step::Params { ts, zero_hash: false });
+        }
+        steps.push(Step::Tx(TxSpec::Call { pk: 0, tgt: ctx.clone(), data: vec![0], len: DEFAULT_LEN }));
+        steps.push(Step::Tx(TxSpec::Deposit { pk: 1, ticker: "ordi".into(), amount: "0x5".into() }));
+        steps.push(Step::Tx(TxSpec::Transact { signer: 0, nonce: 1, tgt: ctx.clone(), data: vec![1], len: DEFAULT_LEN }));
+        steps.push(Step::Tx(TxSpec::Transact { signer: 0, nonce: 0, tgt: ctx.clone(), data: vec![2], len: DEFAULT_LEN }));
+        steps.push(Step::Tx(TxSpec::Deploy { pk: 2, code: crate::asm::ctx_initcode(), len: DEFAULT_LEN }));
+        steps.push(Step::Fin);
+        // the probe's slots now hold the context of its last execution in that block (the drained
+        // transaction); a second history continues with an empty block and one more probe call
+        let mut longer = steps.clone();
+        steps.push(Step::Commit);
+        if let Some(ts) = ts {
+            longer.push(Step::Params { ts, zero_hash: true });
+        }
+        longer.push(Step::Mine(1));
+        if let Some(ts) = ts {
+            longer.push(Step::Params { ts, zero_hash: true });
+        }
+        longer.push(Step::Tx(TxSpec::Call { pk: 2, tgt: Tgt::Created { pk: 2, nonce: 0 }, data: vec![3], len: DEFAULT_LEN }));
+        longer.push(Step::Fin);
+        longer.push(Step::Commit);
+        v.push((format!("{}, then an empty block and a call of the second probe", name), longer));
+        v.push((name.to_string(), steps));
+    }
+    v
+}
+
+fn timeshift_run(steps: &[Step]) -> (Vec<String>, String) {
+    let mut inst = crate::inst::Inst::fresh();
+    let mut w = World::new();
+    let mut outs = Vec::new();
+    for s in steps {
+        let o = w.exec(&mut inst, s);
+        outs.push(format!("{} {} => {}", o.call.method, crate::util::canon(&o.call.params), crate::util::canon(&o.outcome.to_value())));
+    }
+    let mut ob = crate::obs::obs(&mut inst, &w.uni, &crate::obs::ObsCfg::default());
+    // what the probes recorded (NUMBER, TIMESTAMP, PREVRANDAO, ... of their last execution)
+    for tgt in [Tgt::Created { pk: 1, nonce: 0 }, Tgt::Created { pk: 2, nonce: 0 }] {
+        if let Some(a) = tgt.resolve() {
+            for slot in 0..14u64 {
+                let r = inst.call("eth_getStorageAt", serde_json::json!([a, format!("0x{:x}", slot)]));
+                ob.push_str(&format!("eth_getStorageAt [{}, {}] => {}\n", a, slot, crate::util::canon(&r.to_value())));
+            }
+        }
+    }
+    if std::env::var("VERIF_DEBUG").is_ok() { eprintln!("{}", ob.lines().filter(|l| l.contains("eth_getStorageAt [")).take(6).collect::<Vec<_>>().join("\n")); for o in &outs { eprintln!("{}", crate::explore::trunc(o, 300)); } }
+    (outs, ob)
+}
+
+/// Child side (`vmc c02-timeshift`).
+pub fn timeshift_main() {
+    crate::inst::set_config("regtest", true);
+    let hs = timeshift_histories();
+    let now_s = || std::time::SystemTime::now().duration_since(std::time::UNIX_EPOCH).map(|d| d.as_secs()).unwrap_or(0);
+    let t_a = now_s();
+    let a: Vec<(Vec<String>, String)> = hs.iter().map(|(_, st)| timeshift_run(st)).collect();
+    let t_a_end = now_s();
+    std::thread::sleep(std::time::Duration::from_millis(1100));
+    while now_s() <= t_a_end {
+        std::thread::sleep(std::time::Duration::from_millis(50));
+    }
+    let t_b = now_s();
+    let b: Vec<(Vec<String>, String)> = hs.iter().map(|(_, st)| timeshift_run(st)).collect();
+    let mut bad: Vec<(String, String)> = Vec::new();
+    let mut compared = 0u64;
+    for (i, (name, _)) in hs.iter().enumerate() {
+        for (x, y) in a[i].0.iter().zip(b[i].0.iter()) {
+            compared += 1;
+            if x != y {
+                bad.push((name.clone(), format!("a call answered differently on two replicas driven {} s apart: A: {} | B: {}", t_b - t_a, crate::explore::trunc(x, 700), crate::explore::trunc(y, 700))));
+                break;
+            }
+        }
+        compared += 1;
+        if a[i].1 != b[i].1 {
+            let d = a[i].1.lines().zip(b[i].1.lines()).find(|(x, y)| x != y).map(|(x, y)| format!("A: {} | B: {}", crate::explore::trunc(x, 600), crate::explore::trunc(y, 600))).unwrap_or_default();
+            bad.push((name.clone(), format!("a query answers differently on two replicas driven {} s apart: {}", t_b - t_a, d)));
+        }
+    }
+    crate::inst::cleanup_scratch();
+    println!("@@TIMESHIFT {}", serde_json::to_string(&serde_json::json!({"histories": hs.iter().map(|h| h.0.clone()).collect::<Vec<_>>(), "seconds_apart": t_b - t_a, "comparisons": compared, "violations": bad})).unwrap());
+}
+
+/// Parent side: the golden-digest pass followed by the time-shift pass.
+pub fn extra_pass() -> (serde_json::Value, Vec<Violation>, Vec<String>) {
+    let (mut cov, mut vs, mut errors) = super::golden::check();
+    let exe = std::env::current_exe().expect("exe");
+    match std::process::Command::new(&exe).arg("c02-timeshift").stderr(std::process::Stdio::null()).output() {
+        Ok(o) => {
+            let so = String::from_utf8_lossy(&o.stdout).to_string();
+            match so.lines().rev().find(|l| l.starts_with("@@TIMESHIFT ")) {
+                Some(l) => {
+                    let v: serde_json::Value = serde_json::from_str(&l["@@TIMESHIFT ".len()..]).unwrap_or(serde_json::Value::Null);
+                    for x in v["violations"].as_array().cloned().unwrap_or_default() {
+                        vs.push(Violation { property: "C02".into(), kind: "replicas-differ-across-time".into(), scenario: "timeshift".into(), start: "S and the context probe deployed".into(), path: vec![x[0].as_str().unwrap_or("").to_string()], steps: vec![], detail: x[1].as_str().unwrap_or("").to_string() });
+                    }
+                    if v["comparisons"].as_u64().unwrap_or(0) == 0 {
+                        errors.push("time-shift pass: nothing compared".into());
+                    }
+                    if let Some(o) = cov.as_object_mut() {
+                        o.insert("replicas_at_different_wall_clock_seconds".into(), serde_json::json!({"histories": v["histories"], "seconds_apart": v["seconds_apart"], "comparisons": v["comparisons"]}));
+                    }
+                }
+                None => errors.push(format!("time-shift pass: no result line (exit {:?})", o.status.code())),
+            }
+        }
+        Err(e) => errors.push(format!("time-shift pass: {}", e)),
+    }
+    (cov, vs, errors)
+}
